@@ -217,6 +217,21 @@ func (x *crashExec) cutVectors(inst *kvh.Instant) []map[string]int64 {
 		cs = keep
 	}
 	var out []map[string]int64
+	// the other unsynced files (e.g. a hint file, a rewritten file of a merge) get a few interior cuts of their own,
+	// with everything else surviving completely
+	for _, o := range uns[1:] {
+		seen := map[int64]bool{}
+		for _, c := range []int64{o.Synced + 1, (o.Synced + o.Logical) / 2, (o.Synced+o.Logical)/2 + 1, o.Logical - 3, o.Logical - 1} {
+			if c <= o.Synced || c >= o.Logical || seen[c] {
+				continue
+			}
+			seen[c] = true
+			out = append(out, map[string]int64{o.Rel: c})
+		}
+	}
+	if x.c.MaxCuts > 0 && len(out) > x.c.MaxCuts {
+		out = out[:x.c.MaxCuts]
+	}
 	for i, c := range cs {
 		v := map[string]int64{prim.Rel: c}
 		// the other unsynced files alternate between "nothing unsynced survived" and "everything survived"
